@@ -23,6 +23,7 @@ var adapterFor = map[string]string{
 	"(*reverseChannels).remove":       "registryRemove",
 	"(*reverseChannels).add":          "registryAdd",
 	"(*tunnelChannel).Err":            "channelErr",
+	"(*tunnelClientStream).readMsg":   "clientReadMsg",
 	"(*tunnelChannel).recvLoop":       "negotiate",
 }
 
